@@ -13,4 +13,12 @@ open WS.Gen
 
 theorem skeleton_matches_source : ConnCIR.skeleton = Skeleton.code := by decide
 
+/-- the sharper tie: for every function of the skeleton the primitives *in source order, inside their
+control structure* (`if{ … }else{ … }`, `for{ … }`, `select{ case: … }`, `defer{ … }`, `return`) are what
+they were when the CIR program was written against the source (/verif/cir/skeleton_ordered.json).
+Moving a flag update across an unlock, swapping two lock acquisitions, returning before a join or
+dropping a branch changes the regenerated side and breaks this obligation; code that does not
+synchronise can change freely. -/
+theorem ordered_matches_source : ConnCIR.orderedDeclared = Skeleton.ordered := by decide
+
 end WS.Props.CIRTie
